@@ -9,9 +9,11 @@
 From Coq Require Import ZArith NArith List Bool.
 From SW Require Import base.GoInt.
 From SW Require gen.Funcs.
-From SW Require model.Needle model.EcIndex model.EC model.Ttl model.Codecs model.VolPlanner model.TopoPlace model.EcBalance model.TopoCount.
+From SW Require gen.Funcs5.
+From SW Require model.Needle model.EcIndex model.EC model.Ttl model.Codecs model.VolPlanner model.TopoPlace model.EcBalance model.TopoCount model.NeedleMap model.Chunks model.S3Paths.
 From SW Require proof.FuncsTieProofs.
 Import FuncsTieProofs.
+Import ListNotations.
 Local Open Scope Z_scope.
 
 (* needle.PaddingLength / NeedleBodyLength / GetActualSize (C02, C03, C04): size is an int32 >= 0;
@@ -191,3 +193,171 @@ Print Assumptions tie_ShardBits_ShardIdCount.
 Theorem tie_ShardIdCount_fuel : forall n : N, (n < 4294967296)%N -> TopoCount.popcount n <= 32.
 Proof. exact popcount_u32. Qed.
 Print Assumptions tie_ShardIdCount_fuel.
+
+(* ================= anonymous literals (gen/Funcs.v, section "anonymous literals"; harness/cmd/funcgen/lits.go) =================
+   Each Lit_* is read from the Go function body by a structural pattern that must match exactly once. *)
+
+(* C03 / C07: CheckAndFixVolumeDataIntegrity verifies the last 10 index entries *)
+Theorem lit_CheckAndFix_window : forall es recs len,
+  EcIndex.dm_check_fix es recs len =
+  EcIndex.dm_cf_loop (Z.to_nat Funcs.Lit_CheckAndFix_window) (rev es) (N.of_nat (List.length es) - 1) recs len (N.of_nat (List.length es)).
+Proof. exact lit_CheckAndFix_window_proof. Qed.
+Print Assumptions lit_CheckAndFix_window.
+
+Theorem lit_CheckAndFix_window_pin : Funcs.Lit_CheckAndFix_window = 10.   (* VolumeCrash.check_and_fix: check_loop 10 *)
+Proof. exact lit_CheckAndFix_window_pin_proof. Qed.
+Print Assumptions lit_CheckAndFix_window_pin.
+
+(* C05: CompactSection.Set look-back *)
+Theorem lit_lookback : Funcs.Lit_CompactSection_Set_lookback = Z.of_nat NeedleMap.lookback.
+Proof. exact lit_lookback_proof. Qed.
+Print Assumptions lit_lookback.
+
+(* C08: SuperBlock.Bytes extra size limit 256*256-2 *)
+Theorem lit_sb_extra_max : Funcs.Lit_SuperBlock_Bytes_extraMax = Z.of_N Codecs.sb_extra_max.
+Proof. exact lit_sb_extra_max_proof. Qed.
+Print Assumptions lit_sb_extra_max.
+
+(* C17: math.MaxInt64 as "to the end" in ViewFromChunks / ViewFromVisibleIntervals *)
+Theorem lit_max_int64 :
+  Funcs.Lit_ViewFromVisibleIntervals_toEnd = Z.of_N Chunks.max_int64 /\
+  Funcs.Lit_ViewFromChunks_stop = Z.of_N Chunks.max_int64.
+Proof. exact lit_max_int64_proof. Qed.
+Print Assumptions lit_max_int64.
+
+(* C29: the default buckets folder and the uploads folder format "%s/%s/.uploads" *)
+Theorem lit_buckets_path : Funcs.Lit_startS3Server_bucketsPath = S3Paths.buckets_path.
+Proof. exact lit_buckets_path_proof. Qed.
+Print Assumptions lit_buckets_path.
+
+Theorem lit_uploads_folder : forall b : String.string,
+  S3Paths.uploads_dir b = subst_s Funcs.Lit_genUploadsFolder_format [S3Paths.buckets_path; b].
+Proof. exact lit_uploads_folder_proof. Qed.
+Print Assumptions lit_uploads_folder.
+
+(* C08: ParseNeedleIdCookie length limits CookieSize*2 = 8 and (NeedleIdSize+CookieSize)*2 = 24 *)
+Theorem lit_parse_key_cookie : forall s : list N,
+  Codecs.parse_key_cookie s =
+  if (Needle.len s <=? Z.to_N Funcs.Lit_ParseNeedleIdCookie_minLen)%N then None
+  else if (Z.to_N Funcs.Lit_ParseNeedleIdCookie_maxLen <? Needle.len s)%N then None
+  else
+    let split := (Needle.len s - Z.to_N Funcs.Lit_ParseNeedleIdCookie_cookieLen)%N in
+    match Codecs.parse_uint_hex 64 (Needle.takeN split s) with
+    | None => None
+    | Some key => match Codecs.parse_uint_hex 32 (Needle.dropN split s) with
+                  | None => None
+                  | Some cookie => Some (key, cookie)
+                  end
+    end.
+Proof. exact lit_parse_key_cookie_proof. Qed.
+Print Assumptions lit_parse_key_cookie.
+
+(* pinned literals (the model / check / harness uses the number inline; see proof/FuncsTieProofs.v):
+   C05 batch; C06 EC buffer sizes; C38 startWorker limits and channel capacity; C18 rename page size;
+   C22 log buffer constants; C14 vacuum comparison operator (5 = >=) and timeout constants *)
+Theorem lit_pins :
+  Funcs.Lit_needle_map_batch = 100000 /\
+  Funcs.Lit_WriteEcFiles_bufferSize = 262144 /\ Funcs.Lit_RebuildEcFiles_bufferSize = 262144 /\
+  Funcs.Lit_startWorker_maxBytes = 4194304 /\ Funcs.Lit_startWorker_maxRequests = 128 /\
+  Funcs.Lit_NewVolume_chanCapacity = 128 /\
+  Funcs.Lit_moveFolderSubEntries_pageSize = 1024 /\
+  Funcs.Lit_log_buffer_PreviousBufferCount = 3 /\ Funcs.Lit_log_buffer_BufferSize = 4194304 /\
+  Funcs.Lit_NewLogBuffer_flushChanCapacity = 256 /\
+  Funcs.Lit_batchVacuumVolumeCheck_cmp = 5 /\ Funcs.Lit_batchVacuumVolumeCheck_timeoutDivisor = 1000 /\
+  Funcs.Lit_batchVacuumVolumeCompact_timeoutFactor = 3.
+Proof. exact lit_pins_proof. Qed.
+Print Assumptions lit_pins.
+
+(* ================= offset width: 4-byte build (gen/Funcs.v) and 5BytesOffset build (gen/Funcs5.v) (C03 C05 C07 C08) ================= *)
+
+Theorem tie_ToOffset_w4 : forall a : N, Z.of_N a <= max63 ->
+  offset_units (Funcs.ToOffset (Z.of_N a)) = Z.of_N (Codecs.to_offset_w 4 a).
+Proof. exact tie_ToOffset_w4_proof. Qed.
+Print Assumptions tie_ToOffset_w4.
+
+Theorem tie5_ToOffset : forall a : N, Z.of_N a <= max63 ->
+  offset_units5 (Funcs5.ToOffset (Z.of_N a)) = Z.of_N (Codecs.to_offset_w 5 a) /\
+  0 <= Funcs5.Offset_b0 (Funcs5.ToOffset (Z.of_N a)) < 256 /\ 0 <= Funcs5.Offset_b1 (Funcs5.ToOffset (Z.of_N a)) < 256 /\
+  0 <= Funcs5.Offset_b2 (Funcs5.ToOffset (Z.of_N a)) < 256 /\ 0 <= Funcs5.Offset_b3 (Funcs5.ToOffset (Z.of_N a)) < 256 /\
+  0 <= Funcs5.Offset_b4 (Funcs5.ToOffset (Z.of_N a)) < 256.
+Proof. exact tie5_ToOffset_proof. Qed.
+Print Assumptions tie5_ToOffset.
+
+Theorem tie5_Offset_ToActualOffset : forall b4 b3 b2 b1 b0,
+  0 <= b0 < 256 -> 0 <= b1 < 256 -> 0 <= b2 < 256 -> 0 <= b3 < 256 -> 0 <= b4 < 256 ->
+  Funcs5.Offset_ToActualOffset (Funcs5.mkOffset b4 b3 b2 b1 b0) = 8 * offset_units5 (Funcs5.mkOffset b4 b3 b2 b1 b0).
+Proof. exact tie5_Offset_ToActualOffset_proof. Qed.
+Print Assumptions tie5_Offset_ToActualOffset.
+
+Theorem tie5_Offset_roundtrip : forall a : N, (a < Codecs.max_volume_size 5)%N ->
+  Funcs5.Offset_ToActualOffset (Funcs5.ToOffset (Z.of_N a)) = 8 * (Z.of_N a / 8).
+Proof. exact tie5_Offset_roundtrip_proof. Qed.
+Print Assumptions tie5_Offset_roundtrip.
+
+Theorem tie5_Offset_IsZero : forall a : N, Z.of_N a <= max63 ->
+  Funcs5.Offset_IsZero (Funcs5.ToOffset (Z.of_N a)) = (Codecs.to_offset_w 5 a =? 0)%N.
+Proof. exact tie5_Offset_IsZero_proof. Qed.
+Print Assumptions tie5_Offset_IsZero.
+
+Theorem tie_BytesToOffset_w4 : forall x0 x1 x2 x3 : N,
+  exists o, Funcs.BytesToOffset [Z.of_N x0; Z.of_N x1; Z.of_N x2; Z.of_N x3] = Some o /\
+            offset_units o = Z.of_N (Codecs.off_parse 4 [x0; x1; x2; x3]).
+Proof. exact tie_BytesToOffset_w4_proof. Qed.
+Print Assumptions tie_BytesToOffset_w4.
+
+Theorem tie5_BytesToOffset : forall x0 x1 x2 x3 x4 : N,
+  exists o, Funcs5.BytesToOffset [Z.of_N x0; Z.of_N x1; Z.of_N x2; Z.of_N x3; Z.of_N x4] = Some o /\
+            offset_units5 o = Z.of_N (Codecs.off_parse 5 [x0; x1; x2; x3; x4]).
+Proof. exact tie5_BytesToOffset_proof. Qed.
+Print Assumptions tie5_BytesToOffset.
+
+Theorem tie5_BytesToOffset_short : forall b : list Z, (List.length b < 5)%nat -> Funcs5.BytesToOffset b = None.
+Proof. exact tie5_BytesToOffset_short_proof. Qed.
+Print Assumptions tie5_BytesToOffset_short.
+
+Theorem tie_width_consts :
+  Funcs.Const_OffsetSize = 4 /\ Funcs5.Const_OffsetSize = 5 /\
+  Funcs.Const_MaxPossibleVolumeSize = Z.of_N (Codecs.max_volume_size 4) /\
+  Funcs5.Const_MaxPossibleVolumeSize = Z.of_N (Codecs.max_volume_size 5) /\
+  Funcs.Const_NeedleMapEntrySize = Z.of_N (EcIndex.entry_size 4) /\
+  Funcs5.Const_NeedleMapEntrySize = Z.of_N (EcIndex.entry_size 5).
+Proof. exact tie_width_consts_proof. Qed.
+Print Assumptions tie_width_consts.
+
+(* ================= big-endian byte readers (weed/util/bytes.go, weed/storage/types): loops over a slice (C02 C05 C07 C08) =================
+   slices are lists; b[i] out of range is a panic (None).  be_decode is the models' big-endian reading. *)
+Theorem tie_BytesToUint32 : forall (l : list N) (fuel : nat),
+  Forall (fun x => (x < 256)%N) l -> (1 <= List.length l <= 4)%nat -> (List.length l <= fuel)%nat ->
+  Funcs.BytesToUint32 fuel (map Z.of_N l) = Some (Z.of_N (Needle.be_decode l)).
+Proof. exact tie_BytesToUint32_proof. Qed.
+Print Assumptions tie_BytesToUint32.
+
+Theorem tie_BytesToUint64 : forall (l : list N) (fuel : nat),
+  Forall (fun x => (x < 256)%N) l -> (1 <= List.length l <= 8)%nat -> (List.length l <= fuel)%nat ->
+  Funcs.BytesToUint64 fuel (map Z.of_N l) = Some (Z.of_N (Needle.be_decode l)).
+Proof. exact tie_BytesToUint64_proof. Qed.
+Print Assumptions tie_BytesToUint64.
+
+Theorem tie_BytesToSize : forall (l : list N) (fuel : nat),
+  Forall (fun x => (x < 256)%N) l -> (1 <= List.length l <= 4)%nat -> (List.length l <= fuel)%nat ->
+  Funcs.BytesToSize fuel (map Z.of_N l) = Some (EcIndex.size_of_u32 (Needle.be_decode l)).
+Proof. exact tie_BytesToSize_proof. Qed.
+Print Assumptions tie_BytesToSize.
+
+Theorem tie_BytesToNeedleId : forall (l : list N) (fuel : nat),
+  Forall (fun x => (x < 256)%N) l -> (1 <= List.length l <= 8)%nat -> (List.length l <= fuel)%nat ->
+  Funcs.BytesToNeedleId fuel (map Z.of_N l) = Some (Z.of_N (Needle.be_decode l)).
+Proof. exact tie_BytesToNeedleId_proof. Qed.
+Print Assumptions tie_BytesToNeedleId.
+
+Theorem tie_BytesToCookie : forall (l : list N) (fuel : nat),
+  Forall (fun x => (x < 256)%N) l -> (4 <= List.length l)%nat -> (4 <= fuel)%nat ->
+  Funcs.BytesToCookie fuel (map Z.of_N l) = Some (Z.of_N (Needle.be_decode (firstn 4 l))).
+Proof. exact tie_BytesToCookie_proof. Qed.
+Print Assumptions tie_BytesToCookie.
+
+(* ShardBits.ShardIds (C16): the loop over the 14 shard ids; fuel 15 suffices *)
+Theorem tie_ShardBits_ShardIds : forall (b : N) (fuel : nat), (15 <= fuel)%nat ->
+  Funcs.ShardBits_ShardIds fuel (Z.of_N b) = Some (map Z.of_N (EcBalance.shard_ids b)).
+Proof. exact tie_ShardBits_ShardIds_proof. Qed.
+Print Assumptions tie_ShardBits_ShardIds.
